@@ -29,7 +29,7 @@ PROP = {'gen': [],
               'argument for passes 2 and 3) + model/implementation correspondence on command lists + reference-terminal predicate on the '
               'implementation\'s commands',
  'design_ref': 'DESIGN.md 6.1, design/C01.md',
- 'n_quick': 5000,
+ 'n_quick': 3000,
  'n_thorough': 100000,
  'shard': 125,
  'level': 'proof',
